@@ -7,7 +7,8 @@ SELFIES_CHARS = list("[]..CNOSPFIBHclr=#/\\@+-0123456789%:()") + [
     "Cl", "Br", "Fe", "Xx", "H1", "+1", "-1", "@@", "13"]
 MODERN = ['[C]', '[=C]', '[#C]', '[N]', '[=N]', '[O]', '[=O]', '[F]', '[S]', '[P]', '[Cl]', '[Branch1]', '[=Branch1]',
           '[#Branch2]', '[Branch3]', '[Ring1]', '[=Ring1]', '[Ring2]', '[#Ring3]', '[C@@H1]', '[N+1]', '[O-1]',
-          '[epsilon]', '[nop]', '[/C]', '[\\C]', '[-/Ring1]', '[//Ring2]', '[Fe+2]', '[13CH3]', '[H]', '.']
+          '[epsilon]', '[nop]', '[/C]', '[\\C]', '[-/Ring1]', '[//Ring2]', '[Fe+2]', '[13CH3]', '[H]', '.',
+          '[CH4]', '[NH4+1]', '[OH2]', '[ClH1]', '[CH3]', '[NH3+1]', '[PH4]', '[SH3]', '[BH4-1]']
 BROKEN = ['[', ']', '[]', '[[C]', '[C]]', 'C', '[C', 'C]', '[Xx]', '[CH9]', '[C+0]', '[c]', '[=]', '[#', '[Ring]',
           '[Ring4]', '[Branch0]', '[=Branch]', '[-Ring1]', '[--Ring1]', '[C@@@]', '[CH]', '[C+]', '[1]', '[+1]',
           '[epsilon', 'epsilon]', '[eps]', '[xepsx]', '[epsBranch1]', '[nop', '[Nop]', '[ C ]', '[C ]', '..', '.',
@@ -112,7 +113,9 @@ def hostile_smiles(rng, seeds=()):
         return "rings", rng.choice(["C11", "C1C1", "C12C12", "C=1CC-1", "C/1CC\\1", "C1CC=1", "C%11%11", "C1CC2", "C1(C1)", "C1.C1",
                                     "F:F", "C:C", "c:F", "[Fe]:[Fe]", "c1ccccc1:F", "C:1CC:1", "c1cc:c:cc1", "[nH]:1cccc1", "O:O",
                                     "c1ccccc1c", "cc", "c", "[c]", "c1cc1", "c1ccc1", "n1nnn1", "[cH-]1cccc1", "c1ccccc1C:C",
-                                    "C1CC%01", "C%01CC1", "C0CC0", "C%00CC0", "C1CC1C1CC1", "C12345678CCCCCCCC12345678"])
+                                    "C1CC%01", "C%01CC1", "C0CC0", "C%00CC0", "C1CC1C1CC1", "C12345678CCCCCCCC12345678",
+                                    "[Na]:1CCCC1", "[Na]1CCCC:1", "F1CCCC:1", "C1CC[Fe]:1", "[H]:1CC1", "Cl:1CC:1", "c1ccccc1:[Na]",
+                                    "[Zn]:1cccc:1", "C:1CCC[Cl+]:1", "O=[Xe]:1CC:1", "C²CC²", "C%½½CC%½½", "C①CC①", "C٣CC٣"])
     return "edge", rng.choice(["", ".", "..", "C.", ".C", "C..C", "(", ")", "()", "C()", "C(C", "C)C", "[", "]", "[]", "[C", "C]",
                                "=", "=C", "C=", "C==C", "C=(C)", "(C)", "C((C))", "1", "1C1", "%", "C%", "C%1", "C%1C%1", "*", "C*",
                                "C$C", "[C@TH1](F)(Cl)Br", "[C@@@H]", "[CH2-]", "[C--]", "[C+-]", "[HH]", "[H]", "[2H]", "\x00", " C",
